@@ -5,6 +5,7 @@ import json
 import multiprocessing
 import os
 import random
+import re
 import shutil
 import traceback
 
@@ -40,6 +41,12 @@ def _observe_items(task):
     for cid, text, k, flag_deps, extra in items:
         try:
             obs = dc.observe(text, mm, sem, parser, flag_deps=flag_deps)
+            if k is not None and extra and extra.get("latFromObs"):
+                # latencies are the model's business (C07/C08); take them as observed
+                k = dict(k, lat=obs["lat"], latwo=obs["latwo"], lds=obs["lds"])
+                if kind != "syn":
+                    k["pidx"] = dc.units(mm.get("p_index_latency", 1))
+                    k["fwd"] = dc.units(mm.get("store_to_load_forward_latency", 0) or 0)
             c = dc.make_case(cid, obs, checks, k=k, extra=extra)
             c["text"] = text
             c["olat"], c["olatwo"], c["olds"] = obs["lat"], obs["latwo"], obs["lds"]
@@ -192,7 +199,9 @@ def random_synthetic(run, pid, checks, seed, n_kernels, maxlen, tag="r3", nmodel
                         instrs.append(dc.gen_instr(isa, rnd.choice(shapes), rnd, pool=pool, vpool=vpool))
                 fd = rnd.random() < 0.5
                 k = dc.abstract_kernel(instrs, pidx, 0.0, fd)
-                items.append(("%s:%s:%s:m%d:%d" % (pid, tag, isa, m, n), dc.kernel_text(instrs, rnd), k, fd,
+                # kernels deep inside a long file: line numbers around and beyond 1000
+                pad = "\n" * rnd.choice([990, 996, 998, 999, 1000, 1003, 1500, 2999]) if rnd.random() < 0.12 else ""
+                items.append(("%s:%s:%s:m%d:%d" % (pid, tag, isa, m, n), pad + dc.kernel_text(instrs, rnd), k, fd,
                               {"meta": {"isa": isa, "src": "random-synthetic", "shapes": [i["shape"] for i in instrs]}}))
             step = max(1, len(items) // 3 + 1)
             for i in range(0, len(items), step):
@@ -210,6 +219,20 @@ def report(run, pid, rejected, cases):
             run.fail("%s:exception:%s" % (pid, c["error"].split(":")[0]), c["error"], c)
     for c, clause, detail in rejected:
         meta = c.get("meta", {})
+        pair = re.findall(r"<<(\d+), (\d+)>>", " ".join(str(x) for x in detail)) if "edge" in clause else []
+        if pair and meta.get("shapes") and len(meta["shapes"]) == c["n"]:
+            i, j = [(int(x) - 1) % c["n"] for x in pair[0]]
+            inc = meta.get("incomplete")
+            a, b = int(pair[0][0]), int(pair[0][1])
+            between = [inc[(m - 1) % c["n"]] for m in range(a + 1, b)] if inc else []
+            culprit = inc and (inc[j] or inc[i] or next((x for x in between if x), ""))
+            if culprit and meta.get("flagdeps"):
+                run.fail("%s:isa-db-flags-incomplete:%s:%s" % (pid, meta.get("isa"), culprit),
+                         "%s %s->%s with flag dependencies on %r" % (clause, meta["shapes"][i], meta["shapes"][j], c.get("text", "")[:200]), c)
+                continue
+            sig = "%s:%s:%s:%s:%s->%s" % (pid, meta.get("src", "?"), meta.get("isa", "?"), clause, meta["shapes"][i], meta["shapes"][j])
+            run.fail(sig, "%s on kernel %r: %s" % (clause, c.get("text", "")[:300], detail), c)
+            continue
         sig = "%s:%s:%s:%s:%s" % (pid, meta.get("src", "?"), meta.get("isa", "?"), clause, "/".join(meta.get("shapes", [])))
         run.fail(sig, "%s on kernel %r: %s" % (clause, c.get("text", "")[:300], detail), c)
 
@@ -260,6 +283,8 @@ def run_family(run, pid, tier, seed, checks, validate_now=True):
             run.add_mc(tlc.run_tlc("MC_LoopDeps", "MC_LoopDeps_n3r", workers=16, timeout=2400), "MC_LoopDeps_n3r")
     # R3
     cases += random_synthetic(run, pid, checks, seed, 1200 if quick else 12000, 12 if pid != "C05" else 10)
+    cases += random_vocab(run, pid, checks, seed, 60 if quick else 400, 10,
+                          env.QUICK_X86 if quick else env.X86_ARCHS, env.QUICK_ARM if quick else env.ARM_ARCHS)
     if validate_now:
         finish_family(run, pid, cases)
     return cases
@@ -462,3 +487,29 @@ def rotation_cases(run, pid, seed, n_kernels, maxlen, all_offsets, archs_x86, ar
             c["rotText"] = rc["text"]
             cases.append(c)
     return cases + errors
+
+
+# ------------------------------------------------------------------------------------------
+# R3 (b): curated vocabulary of real instructions on shipped models
+# ------------------------------------------------------------------------------------------
+def random_vocab(run, pid, checks, seed, per_arch, maxlen, archs_x86, archs_arm):
+    from harness import vocab
+
+    env.warm_models(archs_x86 + archs_arm)
+    rnd = random.Random(seed * 101 + 7)
+    tasks = []
+    for isa, archs in (("x86", archs_x86), ("aarch64", archs_arm)):
+        for arch in archs:
+            items = []
+            for n in range(per_arch):
+                gp, vec = vocab.pools(isa, rnd, rnd.choice([2, 3]), 2)
+                instrs = [vocab.gen(isa, rnd, gp, vec) for _ in range(rnd.randint(1, maxlen))]
+                fd = all(i["flags_known"] for i in instrs) and rnd.random() < 0.6
+                k = dc.abstract_kernel(instrs, 1.0, 0.0, fd)
+                items.append(("%s:vocab:%s:%d" % (pid, arch, n), dc.kernel_text(instrs, rnd), k, fd,
+                              {"latFromObs": True,
+                               "meta": {"isa": isa, "src": "vocab:" + arch, "shapes": [i["shape"] for i in instrs],
+                                        "flagdeps": fd,
+                                        "incomplete": [i["shape"] if i["db_flags_incomplete"] else "" for i in instrs]}}))
+            tasks.append(("arch", isa, arch, items, checks))
+    return observe_parallel(tasks)
